@@ -124,6 +124,16 @@ Definition one_vertical_well (simple : bool) (coef : Q * Q * Q) (depth_m per_m a
   let use_simple := simple || Qltb depth_m 500 in
   adj * (if use_simple then per_m * depth_m / 1000000 else quad_cost coef depth_m).
 
+(* ---- non-vertical (lateral) sections (Economics.calculate_cost_of_non_vertical_section) ----
+   a vertical configuration has none; priced per metre when a per-metre figure is supplied, the SIMPLE correlation is chosen
+   or a section is shorter than 500 m, by the correlation per section otherwise; uncased sections cost half *)
+Definition lateral_cost (vertical_cfg per_m_provided simple cased : bool) (coef : Q * Q * Q) (nsec length_m per_m adj : Q) : Q :=
+  if vertical_cfg then 0 else
+  let lps := length_m / nsec in
+  let per_metre := per_m_provided || simple || Qltb lps 500 in
+  let casing := if cased then 1 else 1 # 2 in
+  adj * (if per_metre then casing * (nsec * per_m * lps) / 1000000 else casing * nsec * quad_cost coef lps).
+
 (* ---- district-heating network cost (Economics.Calculate, plant type district heating): four ways to obtain it ---- *)
 Record dh_in := {
   d_total_provided : bool; d_total : Q;            (* Total District Heating Network Cost *)
